@@ -1,6 +1,6 @@
 (* Props/C03.v — every ${{ }} placeholder in a workflow is checked.
    Only statements; every proof is [exact <lemma>]. *)
-From AL Require Import Base.Str Wf.WfAst Wf.Routing Wf.RoutingCovers Wf.RoutingProofs Wf.RoutingTemplate Wf.RoutingTies Gen.GenRouteChecks.
+From AL Require Import Base.Str Wf.WfAst Wf.Routing Wf.RoutingCovers Wf.RoutingProofs Wf.RoutingTemplate Wf.RoutingTies Wf.RoutingSites Gen.GenRouteChecks.
 From Coq Require Import NArith.
 
 (* Every scalar that the AST holds at a value position (mapping value or
@@ -70,6 +70,12 @@ Theorem C03_everykey_sites_declared :
   forallb (fun s => existsb (site_id_eqb s) (map site_of model_sites)) (fired_sites everykey_calls) = true.
 Proof. exact everykey_sites_declared. Qed.
 Print Assumptions C03_everykey_sites_declared.
+
+(* for every workflow (and with or without the repairs) every call site in the
+   chain of every call of the traversal model is an entry of [model_sites] *)
+Theorem C03_visit_sites_declared : forall fx w, Forall chain_ok (visit fx w).
+Proof. exact visit_sites_declared. Qed.
+Print Assumptions C03_visit_sites_declared.
 
 (* the template checker: for ANY lexer/parser [parse] whose error positions lie
    inside the text it is given, a one-line string in which the scan reaches a
